@@ -300,9 +300,9 @@ prop("C12", title="Aliases are transparent; alias conflicts are rejected",
                 "over a 3-name pool, each return value and error equals a reference alias table; alias and canonical name yield the SAME "
                 "interned value (pointer identity, which is what balances are keyed by), a name is never interned twice, and the two conflict "
                 "declarations are rejected. All orders of declaration versus first use within the bound are covered. The call site, "
-                "ProcessAccumulator::process on an `account a / alias b` or `commodity a / alias b` declaration, is run after every subset of "
-                "{a, b} was already in use: the alias is registered also when the canonical name was used first, and a conflicting alias is "
-                "rejected. Feeding whole transactions with aliases through add_transaction is outside (does not fit the solver).",
+                "ProcessAccumulator::process on an `account a` / `commodity a` declaration with two sub-directives (alias b, alias c or "
+                "comments), is run after every subset of {a, b, c} was already in use: aliases are registered also when the canonical name "
+                "was used first, and a conflicting alias is rejected whichever sub-directive carries it. Feeding whole transactions with aliases through add_transaction is outside (does not fit the solver).",
      level_note="Trusted: Kani/CBMC; verif_map (keys compared by content, as the real map), bump allocator stub.")
 H("C12", file="core/intern.rs", name="c12_intern_sequence_3", timeout=900, expect_s=80,
   functions=["InternStore::ensure", "InternStore::insert_canonical", "InternStore::insert_alias", "InternStore::resolve", "InternStore::get"],
@@ -503,13 +503,15 @@ H("C16", file="cli/csv.rs", name="c16_amount_column", timeout=1200, expect_s=190
   models=CSVM,
   oracle="asset: amount; liability: -amount; junk: Err")
 
-H("C12", file="core/book_keeping.rs", name="c12_declare_account", timeout=1200, expect_s=105, map_cap=3,
+H("C12", file="core/book_keeping.rs", name="c12_declare_account", timeout=1200, expect_s=125, map_cap=4,
   functions=["ProcessAccumulator::process (Account arm)", "InternStore::insert_canonical", "InternStore::insert_alias", "InternStore::ensure"],
-  bound="declaration `account a [alias b]` processed after every subset of {a, b} was already used as a plain name; unwind 6",
+  bound="declaration `account a` with two sub-directives, each `alias b` / `alias c` or a comment, processed after every subset of "
+        "{a, b, c} was already used as a plain name; unwind 6",
   models=[DEC, MAP, FMT, BUMP, "add_transaction -> assume(false) (transactions outside)"],
-  oracle="Err iff b is to become an alias although already canonical; otherwise a keeps its identity, b resolves to a iff declared an alias")
-H("C12", file="core/book_keeping.rs", name="c12_declare_commodity", timeout=1200, expect_s=140, map_cap=3,
+  oracle="Err iff some name is to become an alias although already canonical (whichever sub-directive names it); otherwise a keeps its "
+         "identity and b / c resolve to a iff declared an alias")
+H("C12", file="core/book_keeping.rs", name="c12_declare_commodity", timeout=1200, expect_s=160, map_cap=4,
   functions=["ProcessAccumulator::process (Commodity arm)", "InternStore::insert_canonical", "InternStore::insert_alias", "CommodityStore::ensure"],
-  bound="declaration `commodity a [alias b]` after every subset of {a, b} was already used; unwind 6",
+  bound="declaration `commodity a` with two sub-directives (alias b / alias c / comment) after every subset of {a, b, c} was already used; unwind 6",
   models=[DEC, MAP, FMT, BUMP, "add_transaction -> assume(false) (transactions outside)"],
   oracle="same as c12_declare_account")
